@@ -12,7 +12,7 @@ use crate::{
         decimal::{
             GreaterEqualZeroDecimal, LessEqualZeroDecimal, NegDecimal, PosDecimal,
         },
-        math::c_maybe_round_to_effective_cent,
+        math::maybe_round_to_effective_cent,
     },
 };
 
@@ -70,9 +70,12 @@ fn get_delta_superficial_loss_info(
     let m_sfl = get_superficial_loss_ratio(idx, txs, ptf_statuses)?;
 
     let calculated_sfl_amount: LessEqualZeroDecimal = match &m_sfl {
-        Some(sfl) => LessEqualZeroDecimal::from(c_maybe_round_to_effective_cent(
-            cap_loss.mul_pos(sfl.sfl_ratio.to_posdecimal()),
-        )),
+        // Note that this can round to zero (a loss far below a cent), which is not
+        // representable as a NegDecimal.
+        Some(sfl) => LessEqualZeroDecimal::try_from(maybe_round_to_effective_cent(
+            *cap_loss * *sfl.sfl_ratio.to_posdecimal(),
+        ))
+        .unwrap(),
         None => LessEqualZeroDecimal::zero(),
     };
 
@@ -134,12 +137,11 @@ fn get_delta_superficial_loss_info(
             },
             adjust_txs,
         )))
-    } else if let Some(sfl) = m_sfl {
-        // Automatic SFL only
-
+    } else if let (Some(sfl), Ok(calculated_sfl_amount)) =
+        (m_sfl, NegDecimal::try_from(*calculated_sfl_amount))
+    {
+        // Automatic SFL only (and the superficial loss did not round to zero).
         // We don't need calculated_sfl_amount to be a LessEqualZeroDecimal anymore
-        let calculated_sfl_amount =
-            NegDecimal::try_from(*calculated_sfl_amount).unwrap();
         let potentially_over_applied_sfl =
             sfl.fewer_remaining_shares_than_sfl_shares;
 
